@@ -333,10 +333,34 @@ func (r *Runner) docsLine(o Op, d *Dump, hb *vamana.VerifBatch) {
 			st = append(st, fmt.Sprintf("%d:%s", c.Id, t))
 		}
 	}
-	line := fmt.Sprintf("docs %s vp=%s S=%s ops=%s", r.Tag, cfg.PathCodes(), strings.Join(S, ";"), strings.Join(ops, ";"))
+	// which vector the index holds for every node the stream names, before and after the batch (plain
+	// store: the raw vectors are on disk): the model's `vecsAfter` — Set / Delete along the stream, the last
+	// change of a point wins — must end with exactly the vectors the index persisted
+	tab, vecs := "", ""
+	if cfg.PlainStore() && hb != nil {
+		ids := map[uint64]bool{}
+		for _, c := range hb.Stream {
+			ids[c.Id] = true
+		}
+		var ts, vs []string
+		for _, id := range sortedKeys(ids) {
+			was, now := "-", "-"
+			if v, ok := prev.RawVec[id]; ok && prev.Vecs[id] && !prev.Fresh {
+				was = fmt.Sprint(tags.Of(v))
+			}
+			if v, ok := d.RawVec[id]; ok && d.Vecs[id] {
+				now = fmt.Sprint(tags.Of(v))
+			}
+			ts = append(ts, fmt.Sprintf("%d:%s", id, was))
+			vs = append(vs, fmt.Sprintf("%d:%s", id, now))
+		}
+		tab = " T=" + strings.Join(ts, ",")
+		vecs = " | vec " + strings.Join(vs, ",")
+	}
+	line := fmt.Sprintf("docs %s vp=%s S=%s ops=%s%s", r.Tag, cfg.PathCodes(), strings.Join(S, ";"), strings.Join(ops, ";"), tab)
 	kind := "docs:" + opTag(o)
 	if cfg.Nested() {
 		kind += ":nested"
 	}
-	r.Out.Emit(kind, line, strings.TrimSpace("ok "+strings.Join(st, ",")), len(st) >= 2)
+	r.Out.Emit(kind, line, strings.TrimSpace("ok "+strings.Join(st, ","))+vecs, len(st) >= 2)
 }
